@@ -137,7 +137,8 @@ End Scan.
 
 (* the closing pass of replaceEscapes over what the scan wrote (from index 1 on): a null escape in front of a digit is
    written \x00; with the backtick as delimiter a `$` in front of `{` (which can only come from a decoded escape: the scan
-   escapes the raw ones) is escaped.  The last byte is the closing delimiter (suffix 1). *)
+   escapes the raw ones) is escaped; `</script>` that appears in the written text (after decoding) gets its backslash.
+   The last byte is the closing delimiter (suffix 1). *)
 Fixpoint post_pass (quote : byte) (l : bytes) : bytes :=
   match l with
   | c :: ((c1 :: ((c2 :: _) as t2)) as t1) =>
@@ -145,6 +146,7 @@ Fixpoint post_pass (quote : byte) (l : bytes) : bytes :=
         if (c1 =? 48) && (48 <=? c2) && (c2 <=? 57) then c_bs :: 120 :: 48 :: 48 :: post_pass quote t2
         else c :: c1 :: post_pass quote t2
       else if (quote =? c_bt) && (c =? c_dollar) && (c1 =? c_lbrace) then c_bs :: c :: post_pass quote t1
+      else if (c =? 60) && (10 <=? zlen l) && bytes_eqb (firstn 8 t1) script_end then c :: c_bs :: post_pass quote t1
       else c :: post_pass quote t1
   | _ => l
   end.
